@@ -293,6 +293,7 @@ impl GenSource {
                 rtype: T_OPT,
                 ttl: opt.ttl,
                 rdata: rd,
+                class: 1,
             };
         }
         let (rtype, rdata) = if let Some(n) = big {
@@ -326,6 +327,7 @@ impl GenSource {
             rtype,
             ttl: gen_ttl(rng),
             rdata,
+            class: if rng.chance(1, 8) { *rng.pick(&[3u16, 4, 254, 255]) } else { 1 },
         }
     }
 
